@@ -322,7 +322,8 @@ def check(seq, shape, perm, inner_reverse, resid_scheme, extra, setname, stash, 
             cons = {mol.nodes[k]['tag']: w for k, w in weights.items()}
             graph_nodes = sorted(mol.nodes[k]['tag'] for k in node['graph'].nodes) if 'graph' in node else None
             got.append({'atomname': node.get('atomname'), 'resid': node.get('resid'), 'old': node.get('_old_resid'),
-                        'cons': cons, 'graph': graph_nodes})
+                        'cons': cons, 'graph': graph_nodes, 'atype': node.get('atype'), 'chain': node.get('chain'),
+                        'charge_group': node.get('charge_group')})
         if [g['atomname'] for g in got] != [b['atomname'] for b in beads]:
             problems.append(('c01:block-copies', 'particles %r, expected one block copy per placement in input order: %r' % (
                 [g['atomname'] for g in got], [b['atomname'] for b in beads])))
@@ -349,6 +350,10 @@ def check(seq, shape, perm, inner_reverse, resid_scheme, extra, setname, stash, 
                     break
                 if not stash and g['old'] is not None:
                     problems.append(('c01:stashed-resid', 'particle %s carries a stashed residue number although none was requested' % g['atomname']))
+                    break
+                if g['atype'] != 'T' or g['chain'] != 'A':
+                    problems.append(('c01:particle-attributes', 'particle %s: block attribute atype=%r (the target block says T), kept attribute chain=%r '
+                                     '(all input atoms are in chain A)' % (g['atomname'], g['atype'], g['chain'])))
                     break
         if not problems:
             idx = {k: i for i, k in enumerate(order)}
